@@ -5706,3 +5706,202 @@ func ruleIDX10(c *Ctx) []Ob {
 	}
 	return o.list
 }
+
+// ---------------------------------------------------------------- NIL4
+
+// NIL4: a library function with a single pointer result and no error result
+// that can return nil says "no value" that way (document.NewDocumentOf for a
+// value that is not convertible). A caller inside the library that goes on to
+// call a method on the result, or to dereference it, does so behind a nil test
+// - or hands it on (appends it, passes it) to code that tests it.
+func ruleNIL4(c *Ctx) []Ob {
+	o := newObs(c, "NIL4")
+	mayNil := map[*ssa.Function]bool{}
+	for changed := true; changed; {
+		changed = false
+		for _, g := range c.LibFuncs {
+			if mayNil[g] || g.Parent() != nil || g.Signature.Results().Len() != 1 {
+				continue
+			}
+			if _, isPtr := g.Signature.Results().At(0).Type().Underlying().(*types.Pointer); !isPtr {
+				continue
+			}
+			for _, ret := range returnsOf(g) {
+				rv, ok := returnedValue(ret, 0)
+				if !ok {
+					continue
+				}
+				for _, og := range origins(rv) {
+					if isNilConst(og) {
+						mayNil[g] = true
+						changed = true
+					}
+					if cl, ok := og.(*ssa.Call); ok {
+						if h := staticCallee(cl); h != nil && mayNil[c.declared(h)] {
+							// returned as is, unless tested
+							if !guardedBy(g, ret.Block(), nonNilEdges(g, sameValue(cl))) {
+								mayNil[g] = true
+								changed = true
+							}
+						}
+					}
+				}
+			}
+		}
+	}
+	n := 0
+	for _, fn := range c.LibFuncs {
+		k := 0
+		allCalls(fn, func(ci ssa.CallInstruction) {
+			call, ok := ci.(*ssa.Call)
+			if !ok {
+				return
+			}
+			g := staticCallee(call)
+			if g == nil || !mayNil[c.declared(g)] {
+				return
+			}
+			// uses of the result that need a non-nil value
+			nn := nonNilEdges(fn, sameValue(call))
+			for _, r := range realReferrers(call) {
+				needs := ""
+				switch x := r.(type) {
+				case ssa.CallInstruction:
+					cc := x.Common()
+					if !cc.IsInvoke() && len(cc.Args) > 0 && cc.Args[0] == ssa.Value(call) && cc.StaticCallee() != nil && cc.StaticCallee().Signature.Recv() != nil {
+						needs = "a method is called on it"
+					}
+				case *ssa.UnOp:
+					if x.Op == token.MUL {
+						needs = "it is dereferenced"
+					}
+				case *ssa.FieldAddr:
+					needs = "a field of it is accessed"
+				}
+				if needs == "" {
+					continue
+				}
+				n++
+				k++
+				key := fmt.Sprintf("%s/result of %s #%d", c.fname(fn), shortCallee(call), k)
+				if guardedBy(fn, r.Block(), nn) {
+					o.add(OK, key, relPath(c, r.Pos()), "used behind a nil test")
+				} else {
+					o.add(VIOLATED, key, relPath(c, r.Pos()), "%s can return nil (a value it cannot convert), and %s without a nil test: the operation panics instead of reporting the value as invalid", c.fname(c.declared(g)), needs)
+				}
+			}
+		})
+	}
+	if n == 0 {
+		o.add(OK, "nil results", "-", "no method call or dereference on the result of a library function that can return nil without an error")
+	}
+	return o.list
+}
+
+// ---------------------------------------------------------------- NIL5
+
+// NIL5: the pointer a caller-supplied function returns is nil-tested before a
+// method is called on it, before it is dereferenced, and before it is handed to
+// a library function that does either without a test of its own. A callback
+// is a caller's code: "return nil" is a well-typed answer (the sibling bulk
+// update treats it as "delete this document"), so the operation must not
+// panic on it.
+func ruleNIL5(c *Ctx) []Ob {
+	o := newObs(c, "NIL5")
+	// parameters of library functions that are used (method call, dereference,
+	// field access) without a nil test: index by function
+	needsNonNil := func(g *ssa.Function, idx int) (string, bool) {
+		if g == nil || len(g.Blocks) == 0 || idx >= len(g.Params) {
+			return "", false
+		}
+		p := g.Params[idx]
+		nn := nonNilEdges(g, sameValue(p))
+		for _, r := range realReferrers(p) {
+			needs := derefUse(r, p)
+			if needs == "" {
+				continue
+			}
+			if !guardedBy(g, r.Block(), nn) {
+				return needs, true
+			}
+		}
+		return "", false
+	}
+	n := 0
+	for _, fn := range c.LibFuncs {
+		k := 0
+		allCalls(fn, func(ci ssa.CallInstruction) {
+			call, ok := ci.(*ssa.Call)
+			if !ok || call.Call.IsInvoke() || staticCallee(call) != nil {
+				return
+			}
+			if _, isPtr := call.Type().Underlying().(*types.Pointer); !isPtr {
+				return
+			}
+			// the called value comes from a parameter (of this function or, for a closure, of an enclosing one)
+			fromParam := false
+			for _, og := range origins(call.Call.Value) {
+				switch x := og.(type) {
+				case *ssa.Parameter:
+					fromParam = true
+				case *ssa.FreeVar:
+					_ = x
+					fromParam = true
+				}
+			}
+			if !fromParam {
+				return
+			}
+			nn := nonNilEdges(fn, sameValue(call))
+			for _, r := range realReferrers(call) {
+				needs := derefUse(r, call)
+				if needs == "" {
+					if cc, ok := r.(ssa.CallInstruction); ok {
+						if g := cc.Common().StaticCallee(); g != nil && c.IsLib(c.declared(g)) {
+							for i, a := range cc.Common().Args {
+								if a == ssa.Value(call) {
+									if why, bad := needsNonNil(g, i); bad {
+										needs = "it is handed to " + c.fname(g) + ", where " + why
+									}
+								}
+							}
+						}
+					}
+				}
+				if needs == "" {
+					continue
+				}
+				n++
+				k++
+				key := fmt.Sprintf("%s/result of the caller's function #%d", c.fname(fn), k)
+				if guardedBy(fn, r.Block(), nn) {
+					o.add(OK, key, relPath(c, r.Pos()), "used behind a nil test")
+				} else {
+					o.add(VIOLATED, key, relPath(c, r.Pos()), "the caller's function may return nil, and %s without a nil test: the operation panics", needs)
+				}
+			}
+		})
+	}
+	if n == 0 {
+		o.add(OK, "callback results", "-", "no method call or dereference on the pointer result of a caller-supplied function")
+	}
+	return o.list
+}
+
+// derefUse says whether instruction r needs v to be a non-nil pointer.
+func derefUse(r ssa.Instruction, v ssa.Value) string {
+	switch x := r.(type) {
+	case ssa.CallInstruction:
+		cc := x.Common()
+		if !cc.IsInvoke() && len(cc.Args) > 0 && cc.Args[0] == v && cc.StaticCallee() != nil && cc.StaticCallee().Signature.Recv() != nil {
+			return "a method is called on it"
+		}
+	case *ssa.UnOp:
+		if x.Op == token.MUL {
+			return "it is dereferenced"
+		}
+	case *ssa.FieldAddr:
+		return "a field of it is accessed"
+	}
+	return ""
+}
